@@ -11,3 +11,15 @@ import RegressModel.Api.Match
 import RegressModel.Api.Replace
 import RegressModel.Api.Escape
 import RegressModel.Api.Searcher
+import RegressModel.Unicode.Fold
+import RegressModel.Api.Threads
+import RegressModel.IR.Node
+import RegressModel.VM.Insn
+import RegressModel.VM.Input
+import RegressModel.VM.Backtrack
+import RegressModel.VM.Pike
+import RegressModel.VM.Search
+import RegressModel.VM.WfProg
+import RegressModel.Spec.ESAst
+import RegressModel.Spec.ESCharSet
+import RegressModel.Spec.ESMatch
